@@ -300,5 +300,13 @@ def run(facts, tier):
     c11.c11_7(facts, res, facts.fn("xml_info::<XmlElement as Element>::attributes"), rule="R01-7")
     r01_8(facts, res)
     r01_9(facts, res)
+    # a well-formed start tag may carry a:id next to b:id: the duplicate test has to compare whole names (shared with C02)
+    from props import c02
+    ok, why = c02.wfc_unique_att(facts)
+    res.rule("R01-10", instances=1)
+    res.oblige(1, ok)
+    if not ok:
+        f = facts.fn("xml_info::XmlElement::node")
+        res.add(Finding("R01-10", "Unique Att Spec", "XmlElement::node: %s" % why, f["file"], f["line"], {}))
     res.functions_analysed = res.extra["grammar"]["productions"]
     return res
